@@ -8,8 +8,11 @@ import Hannibal.Monitor.Handles
      (3) upgrading a weak handle succeeds only while a strong holder exists (a handle, an in-flight
          try_* / Caller::call operation, or a timer task in the middle of its send);
      (4) timers never keep the actor alive: with no strong holder left a timer cannot go round again.
-  `monC05q` (trace-only): (2) no strong holder left, no stop, no failure ⇒ by quiescence the actor has handled
-         everything whose submission was acknowledged and has terminated gracefully.
+  `monC05q` (proved for every run of the model whose `begin` labels carry fresh operation ids, Props/C05Q.lean):
+     (2) no strong holder left, no stop, no failure ⇒ by quiescence the actor has handled everything whose
+         submission was acknowledged and has terminated gracefully.
+         `monC05qOrig` is the clause as first written, `monC05q` the same automaton as guard `bad05q` + update
+         `next05q` (equal step functions: `monC05q_orig_step`).
 -/
 namespace Hannibal
 
@@ -84,7 +87,9 @@ structure C05qSt where
   handled : List Nat
   deriving Repr, DecidableEq
 
-def monC05q (c : MonCtx) : Mon C05qSt where
+/-- `monC05q` as first written (one automaton).  `monC05q` below is the same automaton in guard / update form:
+    the two step functions are equal (`monC05q_orig_step`, `Props/C05Q.lean`). -/
+def monC05qOrig (c : MonCtx) : Mon C05qSt where
   init := { hold := HoldSt.init c.h0 c.k0, stopIssued := false, failure := false, streamEnded := false,
             terminated := false, graceful := false, sends := [], sentOk := [], handled := [] }
   step st l :=
@@ -109,5 +114,40 @@ def monC05q (c : MonCtx) : Mon C05qSt where
         if st.terminated && st.graceful && st.sentOk.all (fun m => st.handled.contains m) then some st else none
       else some st
     | _ => some st
+
+/-- state update of `monC05q` -/
+def next05q (c : MonCtx) (st : C05qSt) (l : Label) : C05qSt :=
+  { hold := st.hold.step l
+    stopIssued := st.stopIssued || issuesStop l
+    failure := st.failure || l.isFailure || (match l with | .cbAbandon _ => c.cfg.failOnTimeout | _ => false)
+    streamEnded := st.streamEnded || (match l with | .streamEnd => true | _ => false)
+    terminated := st.terminated || l.terminates
+    graceful := (match l with
+      | .cbBegin _ => false
+      | .cbEnd .stopped true => true
+      | _ => st.graceful)
+    sends := (match l with
+      | .begin o _ (.send m) | .begin o _ (.trySend m) => (o, m) :: st.sends
+      | _ => st.sends)
+    sentOk := (match l with
+      | .ret o .ok => (match lookup o st.sends with | some m => m :: st.sentOk | none => st.sentOk)
+      | _ => st.sentOk)
+    handled := (match l with
+      | .cbBegin (.handle m) => m :: st.handled
+      | _ => st.handled) }
+
+/-- (2) no strong holder left, no stop, no failure: drained, then stopped gracefully
+    (a stream-attached actor whose stream ended terminates for that reason: C13 judges it) -/
+def bad05q (c : MonCtx) (st : C05qSt) : Label → Bool
+  | .quiescent _ =>
+    !st.hold.strongHeld && !st.failure && !st.stopIssued && !(c.cfg.stream && st.streamEnded)
+      && !(st.terminated && st.graceful && st.sentOk.all (fun m => st.handled.contains m))
+  | _ => false
+
+/-- proved for every run of the model whose `begin` labels carry fresh operation ids (`Props/C05Q.lean`) -/
+def monC05q (c : MonCtx) : Mon C05qSt where
+  init := { hold := HoldSt.init c.h0 c.k0, stopIssued := false, failure := false, streamEnded := false,
+            terminated := false, graceful := false, sends := [], sentOk := [], handled := [] }
+  step st l := if bad05q c st l then none else some (next05q c st l)
 
 end Hannibal
